@@ -583,3 +583,6 @@ def check(ctx):
     from .c10 import no_shared_defaults as _nsd, shared_class_state as _scs
     _nsd(ctx.borrowed("R11", "C10"), repo, "R8")
     _scs(ctx.borrowed("R11", "C10"), repo, "R8", only_under="/driver/")
+    ctx.rule("R12", "whatever the number of replies: the endpoint's receive queue hands the hello consumer every reply that arrived, oldest first, also when a hundred are waiting (the consumer takes one per wake-up) - a bounded container behind the queue drops the oldest waiting replies silently, and every re-broadcast refills it with the same tail of spas: the others are never listed (C07.R3's queue model borrowed)")
+    from .c07 import nothing_queued_is_lost as _nql15
+    _nql15(ctx.borrowed("R12", "C07"), repo, "R3")
